@@ -648,6 +648,21 @@ void install_crash_handlers() {
 	std::set_terminate(terminate_handler);
 }
 
+// ------------------------------------------------------------------ signal-disposition snapshot
+// hash over (handler, flags) of the signals a library could plausibly touch; SIGSEGV is left out while the globals
+// guard may be re-arming it (it is ours throughout)
+uint64_t signal_dispositions() {
+	static const int sigs[] = {SIGILL, SIGFPE, SIGBUS, SIGSEGV, SIGABRT, SIGTRAP, SIGSYS, SIGUSR1, SIGUSR2, SIGALRM, SIGPIPE, SIGINT, SIGTERM, SIGHUP, SIGCHLD, SIGPROF, SIGVTALRM};
+	uint64_t h = 0x516;
+	for (int s : sigs) {
+		struct sigaction sa; memset(&sa, 0, sizeof sa);
+		if (sigaction(s, nullptr, &sa) != 0) continue;
+		h = rt::mix64(h, (uint64_t)(uintptr_t)sa.sa_sigaction);
+		h = rt::mix64(h, (uint64_t)(sa.sa_flags & (SA_SIGINFO | SA_ONSTACK | SA_NODEFER | SA_RESETHAND | SA_RESTART)) + ((uint64_t)s << 32));
+	}
+	return h;
+}
+
 // ------------------------------------------------------------------ entry points used by the wrappers
 static void *seam_new(size_t n) {
 	OpCtx *ctx = t_ctx;
@@ -784,8 +799,19 @@ extern "C" int __wrap_mprotect(void *addr, size_t len, int prot) {
 		return r;
 	}
 	++g_stats.mprotects;
+	++ctx->mprotects;
 	Block *b = find_containing((uintptr_t)addr, nullptr);
-	rt::g_log.ev("mprotect", ctx->task, ctx->op_index, (uint64_t)len, (uint64_t)prot, b ? 1 : 0);
+	bool refuse = false;
+	for (int f : ctx->pfaults) if (f == ctx->mprotects) refuse = true;
+	rt::g_log.ev("mprotect", ctx->task, ctx->op_index, (uint64_t)len, (uint64_t)prot, (b ? 1 : 0) + (refuse ? 2 : 0));
+	if (refuse) {
+		// injected refusal (what a kernel out of VMAs, an LSM or a seccomp filter does): nothing changes. A request
+		// that asks for W+X is a violation whether or not it would have been granted.
+		++ctx->pfired; ++g_stats.mprotect_refused;
+		if (b && (prot & PROT_WRITE) && (prot & PROT_EXEC) && (b->owner_class == OWN_CACHE || b->owner_class == OWN_VM_SECURE)) anomaly("WX", std::string("mprotect rwx owner=") + owner_of(*b));
+		rt::sched_yield_point(rt::SITE_MPROTECT);
+		errno = ENOMEM; return -1;
+	}
 	if (!b || b->state != ST_LIVE || !(b->kind == RQ_MMAP || b->kind == RQ_MMAP_HUGE)) {
 		anomaly("BAD_MPROTECT", "not_a_live_library_mapping at=" + describe_addr(addr));
 		errno = ENOMEM; return -1;
@@ -832,6 +858,29 @@ extern "C" int __wrap_pthread_once(pthread_once_t *o, void (*fn)(void)) { rt::sc
 extern "C" int __wrap___cxa_guard_acquire(void *g) { int r = __cxa_guard_acquire(g); if (r) rt::sched_lock_enter(); return r; }
 extern "C" void __wrap___cxa_guard_release(void *g) { rt::sched_lock_exit(); __cxa_guard_release(g); }
 extern "C" void __wrap___cxa_guard_abort(void *g) { rt::sched_lock_exit(); __cxa_guard_abort(g); }
+
+// ------------------------------------------------------------------ signal dispositions (process-wide state)
+#include <signal.h>
+extern "C" int __wrap_sigaction(int sig, const struct sigaction *act, struct sigaction *old) {
+	OpCtx *ctx = t_ctx;
+	if (!ctx || t_in_seam || ctx->model_mode) return sigaction(sig, act, old);
+	InSeam g;
+	++ctx->sigactions; ++g_stats.sigactions;
+	rt::g_log.ev("sigaction", ctx->task, ctx->op_index, (uint64_t)sig, act ? 1 : 0);
+	int r = sigaction(sig, act, old);
+	rt::sched_yield_point(rt::SITE_SIGACTION);
+	return r;
+}
+extern "C" sighandler_t __wrap_signal(int sig, sighandler_t h) {
+	OpCtx *ctx = t_ctx;
+	if (!ctx || t_in_seam || ctx->model_mode) return signal(sig, h);
+	InSeam g;
+	++ctx->sigactions; ++g_stats.sigactions;
+	rt::g_log.ev("signal", ctx->task, ctx->op_index, (uint64_t)sig, 1);
+	sighandler_t r = signal(sig, h);
+	rt::sched_yield_point(rt::SITE_SIGACTION);
+	return r;
+}
 
 // H1 hook target
 extern "C" void randomx_verif_yield(int site) {
